@@ -532,9 +532,16 @@ def _empty_arm_renderings(ctx, f, v):
             val = it.ev(e, env, 0)
         except Unsupported as ex:
             ctx.error(f"{f.key}: empty-set text `{unparse(v)[:60]}` cannot be evaluated: {ex} (unknown idiom)")
-        ctx.require(isinstance(val, Opaque) and val.call is not None and val.call[0] == "self.visit_empty_set_op_expr",
-                    f"{f.key}: empty-set text `{unparse(v)[:60]}` does not end in self.visit_empty_set_op_expr(...)")
-        out[arm] = ast.parse(val.label, mode="eval").body
+        parts = val.parts if isinstance(val, SStr) else [val]
+        ctx.require(all(isinstance(x, (str, Opaque)) for x in parts) and any(
+            isinstance(x, Opaque) and x.call is not None and x.call[0] == "self.visit_empty_set_op_expr" for x in parts),
+            f"{f.key}: empty-set text `{unparse(v)[:60]}` does not end in self.visit_empty_set_op_expr(...)")
+        # back to an expression in the caller's terms (text around the call is kept: the sibling comparison sees it)
+        expr = None
+        for x in parts:
+            node = ast.Constant(value=x) if isinstance(x, str) else ast.parse(x.label, mode="eval").body
+            expr = node if expr is None else ast.BinOp(left=expr, op=ast.Add(), right=node)
+        out[arm] = expr
     return out
 
 
